@@ -328,6 +328,72 @@ example : bsearch (fun mid _ => compare 5 mid) 9 0 0 8 = some (true, 5) := by de
 example : bsearch (fun _ _ => .gt) 9 0 0 8 = some (false, 8) := by decide
 example : bsearch (fun _ _ => .lt) 2 0 0 8 = none := by decide
 
+/-! ### glyf `interpolate_deltas`, autohint `sort_and_quantize_widths`: counting loops -/
+
+/-- **interpolate_deltas, search for the first delta**: `while point_ix <= end_point_ix && …` exits within
+`end_point_ix + 2 - point_ix` body executions for every flag oracle (or returns through `?`) -/
+theorem glyf_interpolate_deltas_first_search_terminates (o : Nat → Nat → Bool) (h : Nat → Nat → Nat) (s : St) :
+    ∃ s', iterG (deltaFirstStep o h) (s.segFirst + 2) s = some (false, s') ∧ s.last ≤ s'.last := by
+  obtain ⟨e, s', h1, h2, h3⟩ := iterG_measure (deltaFirstStep o h) (fun _ => True) (fun s => s.segFirst + 1 - s.last)
+    (fun a b => a.last ≤ b.last ∧ b.segFirst = a.segFirst) (fun _ => True) (fun _ => False)
+    (by intro a b c h1 h2; omega) (by
+      intro s hI
+      unfold deltaFirstStep
+      simp only []
+      repeat' split
+      all_goals first
+        | (left; exact ⟨_, rfl, by dsimp only; omega, trivial⟩)
+        | (right; right; refine ⟨_, rfl, ?_, ?_⟩ <;> dsimp only <;> omega)
+        | (exfalso; omega)
+        | fail "interpolate_deltas #1: a path continues without `point_ix <= end_point_ix` tested and `point_ix += 1`")
+    (s.segFirst + 2) s trivial (by first | omega | (dsimp only; omega))
+  cases e
+  · exact ⟨s', h1, h2.1⟩
+  · simp at h3
+
+/-- **interpolate_deltas, walk to the end of the contour**: entered after `point_ix += 1` (so `1 ≤ point_ix`), exits
+within `end_point_ix + 2 - point_ix` body executions, and the checked `point_ix - 1` of the interpolation range
+never underflows -/
+theorem glyf_interpolate_deltas_next_search_terminates (o : Nat → Nat → Bool) (h : Nat → Nat → Nat) (s : St) (hp : 1 ≤ s.last) :
+    ∃ s', iterG (deltaNextStep o h) (s.segFirst + 2) s = some (false, s') ∧ s.last ≤ s'.last := by
+  obtain ⟨e, s', h1, h2, h3⟩ := iterG_measure (deltaNextStep o h) (fun s => 1 ≤ s.last) (fun s => s.segFirst + 1 - s.last)
+    (fun a b => a.last ≤ b.last ∧ b.segFirst = a.segFirst) (fun _ => True) (fun _ => False)
+    (by intro a b c h1 h2; omega) (by
+      intro s hI
+      unfold deltaNextStep
+      simp only []
+      repeat' split
+      all_goals first
+        | (left; exact ⟨_, rfl, by dsimp only; omega, trivial⟩)
+        | (right; right; refine ⟨_, rfl, ?_, ?_⟩ <;> dsimp only <;> omega)
+        | (exfalso; omega)
+        | fail "interpolate_deltas #2: a path continues without `point_ix <= end_point_ix` tested and `point_ix += 1`, or `point_ix - 1` can underflow")
+    (s.segFirst + 2) s hp (by first | omega | (dsimp only; omega))
+  cases e
+  · exact ⟨s', h1, h2.1⟩
+  · simp at h3
+
+/-- **sort_and_quantize_widths**: `while ix < table.len()` with `ix` advanced by 1 or 2 on every path exits within
+`table.len() - ix + 1` body executions -/
+theorem autohint_sort_and_quantize_widths_terminates (o : Nat → Nat → Bool) (h : Nat → Nat → Nat) (s : St) :
+    ∃ s', iterG (widthsStep o h) (s.segFirst + 1) s = some (false, s') ∧ s.last ≤ s'.last := by
+  obtain ⟨e, s', h1, h2, h3⟩ := iterG_measure (widthsStep o h) (fun _ => True) (fun s => s.segFirst - s.last)
+    (fun a b => a.last ≤ b.last ∧ b.segFirst = a.segFirst) (fun _ => True) (fun _ => False)
+    (by intro a b c h1 h2; omega) (by
+      intro s hI
+      unfold widthsStep
+      simp only []
+      repeat' split
+      all_goals first
+        | (left; exact ⟨_, rfl, by dsimp only; omega, trivial⟩)
+        | (right; right; refine ⟨_, rfl, ?_, ?_⟩ <;> dsimp only <;> omega)
+        | (exfalso; omega)
+        | fail "sort_and_quantize_widths: a path continues without `ix < table.len()` tested and `ix += 1`")
+    (s.segFirst + 1) s trivial (by first | omega | (dsimp only; omega))
+  cases e
+  · exact ⟨s', h1, h2.1⟩
+  · simp at h3
+
 /-! ### From the entry states of the Rust
 
 Indices are offsets from `contour.first()`, so `contour.first()` is 0 and a contour (`first_ix ..= last_ix`) has
@@ -389,6 +455,13 @@ guard removed it would: `0 - 1` -/
 example : contourPrev 0 3 0 = some 3 ∧ contourPrev 2 5 2 = some 5 ∧ contourPrev 2 5 4 = some 3 := by decide
 
 /-! ### Non-vacuity -/
+
+/-- interpolate_deltas #2, every point has a delta and nothing returns (oracle id of the flag test found by search):
+1 → 2 → 3 → 4, the 4th execution sees `point_ix > end_point_ix` -/
+example : ∃ k, k < 4 ∧ iterGCount (deltaNextStep (fun c _ => c == k) (fun _ => fun _ => 0)) 5 ⟨1, 3, 0, 0⟩
+    = some (false, ⟨4, 3, 0, 4⟩, 4) := by decide
+/-- widths: the double step at the end of the table -/
+example : iterGCount (widthsStep (fun _ _ => true) (fun _ _ => 0)) 5 ⟨1, 4, 0, 0⟩ = some (false, ⟨5, 4, 0, 3⟩, 3) := by decide
 
 /-- insert_edge, never ordered: 3 → 2 → 1 → 0, the 4th execution sees `ix = 0` -/
 example : iterGCount (insertEdgeStep (fun _ _ => false) (fun _ _ => 0)) 4 ⟨3, 0, 0, 0⟩ = some (false, ⟨0, 0, 0, 4⟩, 4) := by decide
